@@ -140,6 +140,11 @@ let run_case op kv : string * string =
       (match rfinder_new x with
        | (Ok f, _) -> let (r, _) = rfinder_rfind ar f O h in (fmt_res fmt_opt_nat r, "-")
        | (Panic p, _) -> ("Panic:" ^ fmt_panic p, "-"))
+    else if get kv "dir" = "r" then
+      (match rfinder_new x with
+       | (Ok f, _) -> let (r, _) = riter_run ar f O h (nat_of_int (num kv "k")) (riter_new h) in
+         (fmt_res (fun outs -> String.concat ";" (List.map fmt_opt_nat outs)) r, "-")
+       | (Panic p, _) -> ("Panic:" ^ fmt_panic p, "-"))
     else
       (match finder_new PAuto default_rank ar x with
        | (Ok f, _) -> let (r, _) = fiter_run ar f O h (nat_of_int (num kv "k")) fiter_new in
